@@ -47,6 +47,15 @@ def apply_descriptor(lines, d):
         if len(ids) < p + 2:
             return None
         out = C.relabel_residues(out, {ids[p + 1]: (ids[p][0], ids[p][1], "A" if ids[p][2] == " " else chr(ord(ids[p][2]) + 1))})
+    if mode in ("codeA", "codeB"):
+        ids = residue_ids(out, a if mode == "codeA" else b)
+        # the model's "second residue" is played by the first ionizable residue after the chain start
+        ion = [r for r in ids[1:] if r[2] == " " and any(C.is_atom(ln) and C.resid(ln) == r and ln[17:20] in
+                                                          ("ASP", "GLU", "HIS", "TYR", "LYS", "ARG", "CYS") for ln in out)]
+        tgt = ion[0] if ion else (ids[1] if len(ids) > 1 else None)
+        if tgt is None or tgt[2] != " ":
+            return None
+        out = C.relabel_residues(out, {tgt: (tgt[0], tgt[1], "A")})
     sa, sb = d["sa"], d["sb"]
     ia, ib = residue_ids(out, a), residue_ids(out, b)
     # the symbolic shift 3 of the model: the shifted chain meets the other chain's number at the chain boundary
